@@ -25,6 +25,7 @@ type FuncResult struct {
 	GenSeconds  float64        `json:"gen_s"`
 	Obls        []*Obligation  `json:"-"`
 	Trusted     bool           `json:"trusted,omitempty"`
+	TrustedWhy  string         `json:"trusted_why,omitempty"`
 	MaxRank     int            `json:"max_rank,omitempty"`
 	File        string         `json:"file,omitempty"`
 }
@@ -46,7 +47,13 @@ func (P *Prog) verifyWith(key string, c *Contract, opts VerifyOpts, solv *Solver
 		fr.Trusted = true
 		return fr
 	}
-	if fn == nil || fn.Blocks == nil {
+	if fn != nil && fn.Blocks == nil {
+		// declared without a Go body under this tag set (assembly): the contract is trusted here
+		fr.Trusted = true
+		fr.TrustedWhy = "no Go body under these build tags (assembly implementation)"
+		return fr
+	}
+	if fn == nil {
 		fr.Unsupported = "no SSA body for " + key
 		return fr
 	}
@@ -439,8 +446,12 @@ func (e *Env) evalRegion(ex *Expr) []Region {
 func (x *Exec) specApply(e *Env, f *SpecFn, vals []Value) Value {
 	var sig []string
 	for _, v := range vals {
-		for _, l := range flatten(v) {
+		for _, l := range flattenSpec(v) {
 			sig = append(sig, smtSortName(l.Sort))
+		}
+		if pv, ok := v.(PtrV); ok && pv.Kind == PHeap && len(pv.Path) > 0 {
+			// interior pointer: the instance is specific to the enclosing object type and field path
+			sig = append(sig, "in_"+typeKey(pv.Root)+"_"+pathName(pv.Root, pv.Path))
 		}
 		if sv, ok := v.(SliceV); ok {
 			sig = append(sig, typeKey(sv.Elem))
@@ -455,7 +466,7 @@ func (x *Exec) specApply(e *Env, f *SpecFn, vals []Value) Value {
 		pn := strings.TrimSpace(strings.TrimPrefix(f.Ret, "like"))
 		for i, p := range f.Params {
 			if p == pn {
-				retSort = flatten(vals[i])[0].Sort
+				retSort = flattenSpec(vals[i])[0].Sort
 			}
 		}
 	}
@@ -467,7 +478,7 @@ func (x *Exec) specApply(e *Env, f *SpecFn, vals []Value) Value {
 		names := map[string]Value{}
 		var formals []Term
 		for i, p := range f.Params {
-			ls := flatten(vals[i])
+			ls := flattenSpec(vals[i])
 			fs := make([]Term, len(ls))
 			for j, l := range ls {
 				fs[j] = Term{fmt.Sprintf("%s!f%d", smtName(p), j), l.Sort}
@@ -563,7 +574,7 @@ func (x *Exec) specApply(e *Env, f *SpecFn, vals []Value) Value {
 		}
 	}
 	for _, v := range vals {
-		args = append(args, flatten(v)...)
+		args = append(args, flattenSpec(v)...)
 	}
 	return Scalar{App(retSort, name, args...)}
 }
@@ -631,4 +642,13 @@ func impliedByPath(st *State, t Term) bool {
 		return false
 	}
 	return conj(t.S)
+}
+
+// flattenSpec is flatten for arguments of specification functions: an interior pointer into a heap
+// object is passed as the object's reference (the field path is part of the instance's name).
+func flattenSpec(v Value) []Term {
+	if pv, ok := v.(PtrV); ok && pv.Kind == PHeap {
+		return []Term{pv.Ref}
+	}
+	return flatten(v)
 }
